@@ -10,7 +10,7 @@ import tempfile
 import zlib
 
 from harness.common import Ck, coq_bytes, coq_list, coq_str, parse_coq_N_list
-from translate import c13_archname, c13_vpk
+from translate import c13_archname, c13_nullstr, c13_vpk
 
 MANIFEST = dict(
     technique='Rocq proof: whole-history refinement of the executable VPK state machine to a plain map (invariant + induction over the '
@@ -47,7 +47,7 @@ MANIFEST = dict(
 )
 
 IMPORTS = ['Coq.Lists.List', 'Coq.NArith.NArith', 'SV.Fmt.VpkDir', 'SV.SM.Vpk', 'SV.Fmt.VpkArchName', 'SV.SM.VpkCorr', 'SV.Gen.VpkPlace_gen',
-           'SV.Gen.VpkArchName_gen']
+           'SV.Gen.VpkArchName_gen', 'SV.Fmt.VpkNullStr', 'SV.Gen.VpkNullStr_gen']
 PRE = 'Import ListNotations. Open Scope N_scope.\n'
 
 R_OK, R_RO, R_EXISTS, R_MISSING, R_BADNAME, R_BADIDX, R_BADDIR, R_EXC = 0, 1, 2, 3, 4, 5, 6, 9
@@ -678,9 +678,31 @@ def search(ck: Ck) -> None:
 
 
 # ------------------------------------------------------------------------------------------------ Coq literals
+def cbytes(b: bytes) -> str:
+    """A byte string as a Coq term of type list N; runs of one byte become `nrep byte count` (SM/VpkCorr.v) so that the long
+    names and streams of the boundary-length cases stay cheap to parse and type-check."""
+    if len(b) < 48:
+        return coq_bytes(b)
+    import itertools
+    parts: list[str] = []
+    lit: list[int] = []
+    for x, g in itertools.groupby(b):
+        k = len(list(g))
+        if k >= 24:
+            if lit:
+                parts.append(coq_bytes(bytes(lit)))
+                lit = []
+            parts.append(f'nrep {x} {k}')
+        else:
+            lit += [x] * k
+    if lit:
+        parts.append(coq_bytes(bytes(lit)))
+    return '(' + ' ++ '.join(parts) + ')' if len(parts) > 1 else parts[0] if parts[0].startswith('[') else '(' + parts[0] + ')'
+
+
 def c_key(parts) -> str:
     e, d, n = mkey(parts)
-    return f'({coq_bytes(e)}, {coq_bytes(d)}, {coq_bytes(n)})'
+    return f'({cbytes(e)}, {cbytes(d)}, {cbytes(n)})'
 
 
 def c_idx(i) -> str:
@@ -930,6 +952,83 @@ def corr_names(ck: Ck) -> None:
         ck.extra['names_disagreement'] = {'form': repr(forms[bad[0]]), 'impl': repr(_get_file_parts(forms[bad[0]]))}
 
 
+# ------------------------------------------------------------------------------------------------ NUL-terminated strings
+def corr_nullstr(ck: Ck) -> None:
+    """Fmt/VpkNullStr.v over the translated code shape (g_ncodec) vs iter_nullstr / _write_nullstring on in-memory files: the strings
+    the generator yields, the position it leaves the file at, or that it raises."""
+    import io
+    from srctools import vpk as vpkmod
+    n = bud(ck, 100, 300, 1500)
+    rng = ck.rng
+    lens = [0, 1, 1, 2, 3, 7, 31, 32, 33, 63, 64, 65]
+
+    def rstr() -> bytes:
+        r = rng.random()
+        if r < 0.08:
+            return b''
+        if r < 0.16:
+            return rng.choice([b' ', b'  ', b' a', b'\x80\xff', b'\xfe'])
+        ln = rng.choice(lens) if r < 0.7 else rng.choice(LONG_LENGTHS[:12]) if r < 0.8 else rng.randrange(0, 300)
+        ch = rng.choice([b'a', b'F', b'/', b'.', b' ', b'\xff', b'\x01'])
+        return ch * ln if rng.random() < 0.7 else bytes(rng.choice(b'ab/. _\x7f\x80\xff') for _ in range(ln))
+    streams: list[bytes] = []
+    fixed = [b'', b'\x00', b' \x00\x00', b'abc', b'abc\x00', b'a\x00b\x00\x00rest', b'a\x00b', b'\x00\x00', b' ', b'  \x00\x00']
+    for ln in LONG_LENGTHS + [254, 258]:       # every boundary length between other strings; 255..257 also alone and unterminated
+        fixed.append(b'k\x00' + b'F' * ln + b'\x00s\x00\x00tail')
+        if ln in (255, 256, 257):
+            fixed += [b'e' * ln + b'\x00\x00', b'x' * ln, b'a\x00' + b's' * ln + b'\x00' + b'e' * ln + b'\x00\x00']
+    streams += fixed
+    while len(streams) < n:
+        sec = [rstr() for _ in range(rng.choice([0, 1, 1, 2, 3, 5]))]
+        b = b''.join((s or b' ') + b'\x00' for s in sec)
+        r = rng.random()
+        if r < 0.7:
+            b += b'\x00' + bytes(rng.randrange(256) for _ in range(rng.choice([0, 0, 1, 18, 40])))
+        elif r < 0.85 and b:
+            b = b[:rng.randrange(len(b))]          # truncated: may end without a terminator
+        streams.append(b)
+    lits = []
+    for b in streams[:n + len(fixed)]:
+        f = io.BytesIO(b)
+        try:
+            got = [x.encode('ascii', 'surrogateescape') for x in vpkmod.iter_nullstr(f)]
+            ex = f'(Some ({coq_list(c_dg(dg(x)) for x in got) if got else "@nil (N * N)"}, {len(b) - f.tell()}))'
+            ck.hist('nullstr_stream', 'section read' + (' (a string of >= 255 bytes)' if any(len(x) >= 255 for x in got) else ''))
+            if got:
+                ck.seen(('ns', b))
+        except Exception:      # noqa
+            ex = 'None'
+            ck.hist('nullstr_stream', 'generator raises')
+        lits.append(f'({cbytes(b)}, {ex})')
+        ck.count('corr_nullstr_streams')
+    wl = []
+    for s in ['', ' ', 'a', 'txt', 'a b', '\udc80\udcff', 'x' * 255, 'x' * 256, 'F' * 1000] + [rstr().decode('ascii', 'surrogateescape') for _ in range(30)]:
+        if '\x00' in s:
+            continue
+        f = io.BytesIO()
+        vpkmod._write_nullstring(f, s)
+        wl.append(f'({cbytes(enc(s))}, {cbytes(f.getvalue())})')
+        ck.count('corr_nullstr_written')
+    bad: list[int] = []
+    for lo in range(0, len(lits), 120):
+        vals = ck.coq_eval(IMPORTS, [f'bad_idx (fun c : bytes * option (list (N * N) * N) => check_nullstr_dg g_ncodec (fst c) (snd c)) 0 {coq_list(lits[lo:lo + 120])}']
+                           + ([f'bad_idx (fun c : bytes * bytes => check_wcstr g_ncodec (fst c) (snd c)) 0 {coq_list(wl)}'] if lo == 0 else []),
+                           name='vpknullstr', preamble=PRE)
+        if vals is None:
+            ck.obligation('correspondence:nullstr', False, 'model could not be evaluated')
+            ck.tie_broken.append('correspondence VPK null-terminated strings: model evaluation failed')
+            return
+        bad += [lo + i for i in parse_coq_N_list(vals[0])]
+        if lo == 0:
+            bad += [-1 - i for i in parse_coq_N_list(vals[1])]
+    ck.obligation('correspondence:nullstr', not bad,
+                  f'{len(lits)} byte streams (sections of strings of length 0..5000 incl. 255/256/257, truncated and arbitrary tails) through iter_nullstr and '
+                  f'{len(wl)} strings through _write_nullstring vs Fmt/VpkNullStr.v over the translated code shape: {len(bad)} disagreements')
+    if bad:
+        ck.tie_broken.append('correspondence VPK null-terminated strings (Fmt/VpkNullStr.v vs iter_nullstr/_write_nullstring)')
+        ck.extra['nullstr_disagreement'] = {'literal': (lits[bad[0]] if bad[0] >= 0 else wl[-1 - bad[0]])[:2000]}
+
+
 # ------------------------------------------------------------------------------------------------ archive file names
 NAME_SUFFIXES = ['_dir.vpk', '.vpk', '', '_dir', 'dir.vpk', '_DIR.vpk', '.vpk_dir.vpk', '_dir.vpk.vpk', '_dir_dir.vpk', '__dir.vpk']
 NAME_INDEXES = [0, 1, 7, 10, 99, 100, 999, 1000, 32766]
@@ -1052,7 +1151,8 @@ def run(ck: Ck) -> None:
     ]
     ok_t = ck.translate('VpkPlace_gen', c13_vpk.translate)
     ok_t = ck.translate('VpkArchName_gen', c13_archname.translate) and ok_t
-    built = ok_t and ck.build(['Props/C13.vo', 'SM/VpkCorr.vo', 'Gen/VpkPlace_gen.vo', 'Gen/VpkArchName_gen.vo'])
+    ok_t = ck.translate('VpkNullStr_gen', c13_nullstr.translate) and ok_t
+    built = ok_t and ck.build(['Props/C13.vo', 'SM/VpkCorr.vo', 'Gen/VpkPlace_gen.vo', 'Gen/VpkArchName_gen.vo', 'Gen/VpkNullStr_gen.vo'])
     if built:
         ck.theorems('Props/C13.v')
         ck.instance_obligations(IMPORTS + ['SV.Fmt.VpkNameSplit', 'SV.Props.C13'], {
@@ -1063,7 +1163,7 @@ def run(ck: Ck) -> None:
             'entry_layout_read_is_IHHIIH': 'nlist_eqb g_entry_widths_read entry_widths_expected',
             'entry_field_order_matches': 'g_entry_fields_match',
             'zero_arch_len_resets_offset': 'g_zero_len_resets_offset',
-            'empty_string_is_a_space_on_both_sides': 'g_blank_is_space',
+            'empty_string_is_a_space_on_both_sides': 'andb (bytes_eqb (nc_blank_r g_ncodec) (32%N :: nil)) (bytes_eqb (nc_blank_w g_ncodec) (32%N :: 0%N :: nil))',
             'preload_capped_at_16_bits': 'andb g_preload_capped (match g_max_preload with Some m => N.leb m 65535 | None => false end)',
             'dir_tail_goes_to_footer_data': 'g_tail_to_footer',
             'archive_index_validated': 'g_chk_idx',
@@ -1080,12 +1180,24 @@ def run(ck: Ck) -> None:
             'archive_sites_same_folder_and_index': 'andb g_index_args_ok g_sites_join_folder',
             'archive_appended_at_end_and_read_at_offset': 'g_archive_append_at_end',
             'deprecated_file_prefix_setter_consistent': 'g_prefix_setter_consistent',
+            # NUL-terminated strings of the tree (Gen/VpkNullStr_gen.v): premises of c13_nullstr_*
+            'nullstr_reader_reads_strings_of_any_length': 'reader_ok (nc_reader g_ncodec)',
+            'nullstr_writer_terminates_with_one_nul': 'bytes_eqb (nc_term g_ncodec) (0%N :: nil)',
+            'nullstr_reader_dispatch_blank_end_string': 'nc_dispatch g_ncodec',
+            'nullstr_same_text_codec_on_both_sides': 'nc_same_codec g_ncodec',
+            'nullstr_instance_satisfies_theorem_premises': 'ncodec_ok g_ncodec',
+            'tree_strings_all_go_through_the_codec': 'andb g_tree_strings_read_by_iter_nullstr g_tree_strings_written_by_write_nullstring',
         }, name='vpkinst')
-        corr_archnames(ck)
-        corr_machine(ck)
-        corr_decode(ck)
-        corr_names(ck)
+        import time as _t
+        t0 = _t.time()
+        for fn in (corr_archnames, corr_nullstr, corr_machine, corr_decode, corr_names):
+            fn(ck)
+            if os.environ.get('C13_TIMING'):
+                print(f'  [timing] {fn.__name__}: {_t.time() - t0:.1f}s'); t0 = _t.time()
+    t0 = __import__('time').time()
     search(ck)
+    if os.environ.get('C13_TIMING'):
+        print(f'  [timing] search: {__import__("time").time() - t0:.1f}s')
     keys = {v['key'] for v in ck.violations}
     # failed obligations are explained when the search exhibits the corresponding concrete history
     if any(k.startswith(('content-mismatch:dir-tail', 'verify-failed:dir-tail', 'content-mismatch:limit-over-64k-dir-tail')) for k in keys):
